@@ -698,6 +698,18 @@ func genLru(r *core.Rand, big bool, emit func(class string, line string)) {
 	reads = append(reads, "rb:r")
 	tail := []string{"bw:w", fmt.Sprintf("pr:w:%d", 60*int(r.Range(1, 20))), "co:w", "br:r", "fk:r:1",
 		fmt.Sprintf("fk:r:%d", nfiles), fmt.Sprintf("fk:r:%d", nfiles+1), "rb:r", "da"}
+	if big {
+		// exactly at the handle limit: after k distinct files the first one is read again
+		// with the next open failing; it must still be open for k = 25 and reopened for k = 26
+		for _, k := range []int{24, 25, 26} {
+			all := append(append([]string{}, ops...), "br:r")
+			for i := 1; i <= k; i++ {
+				all = append(all, fmt.Sprintf("fk:r:%d", i))
+			}
+			all = append(all, "ft:open:1", "fk:r:1", "fc", "fk:r:2", "fk:r:1", "rb:r")
+			emit("lru", "C05 db 60 100000000 "+strings.Join(all, " "))
+		}
+	}
 	for _, n := range []int{0, 1, 25, 26, 27, 29, 33} {
 		all := append([]string{}, ops...)
 		if n > 0 {
@@ -729,7 +741,7 @@ func genParBlocks(r *core.Rand) string {
 	var subs []string
 	for i := 0; i < 8; i++ {
 		var ops []string
-		n := 40 + r.Intn(20)
+		n := 60 + r.Intn(30)
 		for b := 1; b <= n; b++ {
 			ops = append(ops, "bw:w", fmt.Sprintf("sb:w:%d:%d", b, 1+(b*37+i*11)%200), "co:w")
 		}
